@@ -15,7 +15,7 @@ from pyvc import ground
 from specs.common import EventWorld
 
 PROP = "C20"
-GROUNDABLE = False
+GROUNDABLE = True
 BATTERY = "c20_battery.py"
 INOTIFY_C = "watchdog/observers/inotify_c.py"
 WINAPI = "watchdog/observers/winapi.py"
